@@ -160,6 +160,42 @@ Theorem snapshot_cut_same_outcome : forall norm ordered l1 l2 m,
 Proof. exact run_app. Qed.
 Print Assumptions snapshot_cut_same_outcome.
 
+(* --- restart of a replica with an on disk state machine ---------------- *)
+(* StateMachine.handleEntry (model: sm_handle_entry / sm_run): config change
+   entries are applied whatever index the on disk state machine reported on
+   Open; only ordinary updates at or below it are skipped. *)
+
+(* membership and verdicts of a replica = [run] on the config change entries of
+   its log, for every on-disk index *)
+Theorem replica_membership_is_function_of_log : forall norm ordered on_disk odi es r,
+  r_members (fst (sm_run norm ordered on_disk odi r es)) =
+    fst (run norm ordered (r_members r) (cc_reqs es)) /\
+  snd (sm_run norm ordered on_disk odi r es) =
+    snd (run norm ordered (r_members r) (cc_reqs es)).
+Proof. exact sm_run_is_run. Qed.
+Print Assumptions replica_membership_is_function_of_log.
+
+Theorem on_disk_index_irrelevant : forall norm ordered od1 k1 od2 k2 r1 r2 es,
+  r_members r1 = r_members r2 ->
+  r_members (fst (sm_run norm ordered od1 k1 r1 es)) =
+    r_members (fst (sm_run norm ordered od2 k2 r2 es)) /\
+  snd (sm_run norm ordered od1 k1 r1 es) = snd (sm_run norm ordered od2 k2 r2 es).
+Proof. exact on_disk_index_irrelevant_proved. Qed.
+Print Assumptions on_disk_index_irrelevant.
+
+(* replica A applies l1 ++ l2 and never restarts; replica B restarted after a
+   snapshot record taken after l1 (its on disk state machine reporting ANY index
+   k2 on Open, in particular one above config changes of l2), recovered from the
+   record and replayed l2: same membership, same verdicts on l2 *)
+Theorem restart_replay_same_membership : forall norm ordered od1 k1 od2 k2 r l1 l2 ss_index,
+  let a := sm_run norm ordered od1 k1 r (l1 ++ l2) in
+  let s := sm_run norm ordered od1 k1 r l1 in
+  let b := sm_run norm ordered od2 k2 (sm_recover (m_get (r_members (fst s))) ss_index) l2 in
+  has_panic (snd s) = false ->
+  r_members (fst b) = r_members (fst a) /\ snd a = snd s ++ snd b.
+Proof. exact restart_replay_same_membership_proved. Qed.
+Print Assumptions restart_replay_same_membership.
+
 (* a request that is not applied leaves the membership untouched *)
 Theorem rejected_request_changes_nothing : forall norm ordered m r m' v,
   step norm ordered m r = (m', v) -> v <> VApplied -> m' = m.
@@ -215,6 +251,22 @@ Example sample_state_meets_invariants :
   kinds_disjoint_inv sample_state /\ removed_disjoint_inv sample_state /\
   address_unique_inv norm_ascii sample_state /\ nodup_inv sample_state /\ voters_inv sample_state.
 Proof. exact sample_state_invariants. Qed.
+
+(* the seeded-change scenario: snapshot record at 6, add 4 at 7, remove 3 at 9,
+   on disk index 10 at the restart, replay of 7..10 *)
+Example restart_witness :
+  let boot := [ (EConfigChange (mkCC 0 cc_add_node 1 [97; 49] true), 1);
+                (EConfigChange (mkCC 0 cc_add_node 2 [97; 50] true), 2);
+                (EConfigChange (mkCC 0 cc_add_node 3 [97; 51] true), 3);
+                (EUpdate, 4); (EUpdate, 5); (EUpdate, 6) ] in
+  let tail := [ (EConfigChange (mkCC 0 cc_add_node 4 [97; 52] false), 7); (EUpdate, 8);
+                (EConfigChange (mkCC 0 cc_remove_node 3 [] false), 9); (EUpdate, 10) ] in
+  let r0 := mkR empty_membership 0 0 in
+  let s := fst (sm_run norm_ascii false true 0 r0 boot) in
+  let b := fst (sm_run norm_ascii false true 10 (sm_recover (m_get (r_members s)) 6) tail) in
+  observe (r_members b) = mkM 9 [(1, [97; 49]); (2, [97; 50]); (4, [97; 52])] [3] [] []
+  /\ r_updates b = 0 /\ r_applied b = 10.
+Proof. vm_compute. repeat split; reflexivity. Qed.
 
 (* two representations of one membership content, in different internal order *)
 Example mequiv_witness :
